@@ -8,6 +8,7 @@
  *     mtime with 0.  That is outside ISO C; every compiler evaluates it to true, CBMC to false.
  *     A function-like macro renames the function (calls and definition) to mtime_fn and leaves the
  *     bare identifier to a constant 1, which reproduces the compiled behaviour. */
+#include "pre.h"
 #include <fcntl.h>
 #include <sys/stat.h>
 #include <unistd.h>
